@@ -22,7 +22,7 @@ RULE = ('Cases: (integrator) operation sequences as in C02 restricted to with_al
         '(constructor or set_pva; a row overwritten by set_pva is supplied, only its altitude is read), every '
         'feedback-filter row likewise, sd columns down/VD == 0.0, 2-row z/H/R. Non-trivial = history with '
         'non-zero supplied VD or vertical specific-force increments and at least one produced row.')
-ASSUMPTIONS = ['NUMBA_BOUNDSCHECK=1', 'bitwise float comparison (no tolerance)']
+ASSUMPTIONS = ['NUMBA_BOUNDSCHECK=1', 'exact float value comparison, no tolerance (-0.0 == 0.0)']
 
 
 class AltMachine(c02.Machine):
@@ -47,7 +47,7 @@ class AltMachine(c02.Machine):
         for r in range(len(tr)):
             if r in self.supplied_rows:
                 cur = self.alt_at[r] if hasattr(self, 'alt_at') and r in self.alt_at else alt[r]
-            self.ctx.check(alt[r].view(np.uint64) == np.float64(cur).view(np.uint64), f'altitude_drift_after:{what}',
+            self.ctx.check(alt[r] == np.float64(cur), f'altitude_drift_after:{what}',
                            lambda: f'row {r} t={tr.index[r]} alt={alt[r]!r} expected {cur!r}')
 
     def on_integrate(self, chunk, ret):
@@ -60,7 +60,7 @@ class AltMachine(c02.Machine):
     def on_predict(self, row, ret):
         cur = self.integ.trajectory.alt.values[-1]
         self.ctx.check(ret.VD == 0.0, 'predict_vd_nonzero', lambda: f'{ret.VD!r}')
-        self.ctx.check(np.float64(ret.alt).view(np.uint64) == np.float64(cur).view(np.uint64), 'predict_altitude_drift',
+        self.ctx.check(np.float64(ret.alt) == np.float64(cur), 'predict_altitude_drift',
                        lambda: f'{ret.alt!r} vs {cur!r}')
 
     def on_set_pva(self, pva, t):
@@ -106,7 +106,7 @@ def _run_filter(case, ctx, which):
         ctx.check(len(tr) == len(sc.t), 'row_count', f'{len(tr)} vs {len(sc.t)}')
         bad = np.flatnonzero(tr.VD.values != 0.0)
         ctx.check(len(bad) == 0, 'filter_vd_nonzero', lambda: f'rows {bad[:5]} VD {tr.VD.values[bad[:5]]}')
-        bad = np.flatnonzero(tr.alt.values.view(np.uint64) != alt0.view(np.uint64))
+        bad = np.flatnonzero(tr.alt.values != alt0)
         ctx.check(len(bad) == 0, 'filter_altitude_changed', lambda: f'rows {bad[:5]} alt {tr.alt.values[bad[:5]]!r} vs {alt0!r}')
     else:
         err = pd.Series([3.0, -2.0, 0.0, 0.2, -0.1, 0.0, 0.1, -0.1, 0.3], index=gen.ERR_COLS)
